@@ -890,3 +890,9 @@ Proof.
       * rewrite S3. apply map_ext. intro row. apply map_ext. intro t. apply rgb_gray_d_is_luma.
       * intros j Hj Hout. apply S2; auto. now apply outside_rows_rows.
 Qed.
+
+(* ------------------------------------------------------------------ SIMD kernels: plane pointers advance by one vector per iteration *)
+Theorem simd_plane_pointer_advances :
+  forallb (fun e => fst e =? snd e) simd_plane_ptr_advances = true /\
+  (simd_present = true -> (32 <=? Z.of_nat (length simd_plane_ptr_advances)) = true).
+Proof. split; [vm_compute; reflexivity | intros _; vm_compute; reflexivity]. Qed.
